@@ -335,7 +335,7 @@ Section Step.
   Theorem tl_core_law l o : xkey o = false -> law_step vld l o (tl_core vld l o) = [].
   Proof.
     intros XK.
-    destruct o as [i v|sl vs|i|sl|v|vs|vs|n|p q|i v|oi|v| |m r| |xi xv|xi|xn|nsl| ]; try discriminate XK; clear XK;
+    destruct o as [i v|sl vs|i|sl|v|vs|vs|n|p q|i v|oi|v| |m r| |xi xv|xi|xn|nsl| | ]; try discriminate XK; clear XK;
       unfold tl_core.
     - (* SetInt *)
       rewrite removed_items_int. unfold setitem_int.
@@ -484,6 +484,8 @@ Section Step.
       + eapply law_raise; [cbn [builtin]; rewrite Hs; reflexivity|left; reflexivity].
       + eapply law_raise; [cbn [builtin]; replace (slice_step nsl =? 0) with false by lia; reflexivity|left; reflexivity].
     - (* ExtendN *)
+      eapply law_raise; [reflexivity|left; reflexivity].
+    - (* SortPos *)
       eapply law_raise; [reflexivity|left; reflexivity].
   Qed.
 
@@ -763,3 +765,9 @@ Qed.
 Theorem law_on_a_copy (vld : Z -> option Z) k l l' :
   tl_copy vld k l = Ok l' -> forall ops i, law_hist vld i l' (run (tl_step vld) l' ops) = [].
 Proof. intros _ ops i. apply run_law. Qed.
+
+(* ---------- re-entrant notifiers: the nested operation is an operation like any other ---------- *)
+Theorem reaction_law (vld : Z -> option Z) l o :
+  let ob := tl_step vld l o in
+  law_step vld l o ob = [] /\ law_step vld (o_after ob) (Pop (Some 0)) (tl_step vld (o_after ob) (Pop (Some 0))) = [].
+Proof. cbv zeta. split; apply tl_step_law. Qed.
